@@ -31,17 +31,24 @@ SPEC = dict(
           "and parse. decode: mutated encodings and random bytes through Decode. stream: 1-3 encoded assertions written by "
           "the real Encoder (also mutated / truncated) read by NewDecoderStressed with buffer 8..4096 and limits chosen "
           "around the actual component sizes, Decode called until the first non-assertion; plus 12 fixed streams with "
-          "odd body-length values (negative, signed, zero-padded, overflowing, above the maximum: regression cases of the repaired panic). Every call runs under panic recovery and a 20 s time bound. Non-trivial = accepted "
+          "odd body-length values; chunk: valid signed assertions written by the real Encoder into one stream and read back through a reader "
+          "that hands out 0(all),1,2,3,7,B-1,B,B+1 or a random number of bytes per Read (one in four also delivers the last bytes together "
+          "with EOF), with sizes placed so that every delimiter falls on and around the read boundaries of Decoder.readUntil (initial "
+          "buffer B, then doubling): header block ending at B*2^j-3..B*2^j+1 for B in 8,16,50,100 (boundaries 200..1024) and for the "
+          "production B=4096 with boundaries 4096, 8192, 16384 (thorough: also 32768) under the production limits, signature separator "
+          "via B*2^j = siglen-3..siglen+2 with and without body, body end at boundary-2..+2; half of them followed by a second assertion, "
+          "one third with the boundary assertion last; plus random valid streams through chopped readers. Monitor: every original comes "
+          "back identical, in order, then EOF. Fixed body-length streams (negative, signed, zero-padded, overflowing, above the maximum: regression cases of the repaired panic). Every call runs under panic recovery and a 20 s time bound. Non-trivial = accepted "
           "parse / successful round trip / at least one assertion decoded from a stream."),
     exhaustive=dict(quick=True, thorough=True),
     trusted_base=[
         "hand-written model coq/models/AssertCodec.v of asserts/headers.go and of Decode/Decoder in asserts/asserts.go, tied by the differential run (harness/overlay/asserts/zz_verif_c20_test.go)",
         "headerNameValidity (a regexp) and unicode/utf8.Valid are hand models (valid_name, utf8_valid) validated by the differential run",
-        "bufio.Reader / io.MultiReader under Decoder.peek are modelled for an in-memory reader: fewer than size bytes left -> all of them plus a sticky EOF; otherwise exactly size bytes",
+        "bufio.Reader / io.MultiReader under Decoder.peek are modelled as: fewer than size bytes left in the stream -> all of them plus a sticky EOF; otherwise exactly size bytes, however the underlying reader splits its data (validated by the chunked-reader cases, not proved)",
         "assemble's per-type checks, signing and RSA are not modelled: the model stops where Decode calls assemble; an accepted assertion must carry the model's headers/body/signature, a rejection by assemble is allowed",
     ],
     assumptions=[
-        "PARTIAL: proved for all inputs on the model: header text round trip for every normalised tree of any depth (C20_roundtrip, C20_roundtrip_bytes), line split/join inverses, totality of parseHeaders (no out-of-range index, termination within 2*lines+1 steps: C20_no_panic), readUntil/Decode size bounds (C20_read_until_bound, C20_limits), and that Decoder.Decode never panics on any stream (C20_stream_never_panics, C20_stream_loop_never_panics; the negative body-length panic this check found is repaired in /repo commit 94ffaa1). NOT proved, only monitored on the implementation: the content/signature/body splitting of a whole encoded assertion, identical revision/format (derived from headers by assemble), absence of hangs of the real decoder (20 s bound per call).",
+        "PARTIAL: proved for all inputs on the model: header text round trip for every normalised tree of any depth (C20_roundtrip, C20_roundtrip_bytes), line split/join inverses, totality of parseHeaders (no out-of-range index, termination within 2*lines+1 steps: C20_no_panic), readUntil/Decode size bounds (C20_read_until_bound, C20_limits), that the overlap kept between two rounds of readUntil loses no delimiter (C20_read_until_overlap: the Go loop = whole-buffer search for every input), and that Decoder.Decode never panics on any stream (C20_stream_never_panics, C20_stream_loop_never_panics; the negative body-length panic this check found is repaired in /repo commit 94ffaa1). NOT proved, only monitored on the implementation: the content/signature/body splitting of a whole encoded assertion, identical revision/format (derived from headers by assemble), absence of hangs of the real decoder (20 s bound per call), independence of the stream decoder's result from the reader's chunking (monitored with chopped readers).",
         "normalised header tree = strings, non-empty lists, non-empty maps with valid distinct keys (what parseHeaders can produce); assembleAndSign also accepts trees outside this form, whose text form drops empty lists/maps or cannot be parsed (C20_roundtrip_any_tree_refuted) - treated as outside the property's `valid assertion`",
         "Go maps are represented by their key-sorted entry list",
         "the C20_limits bound for the header text is the readUntil bound max(initial buffer, limit); with the production constants (4096, 128 KiB, 2 MiB, 128 KiB) that is the limit itself",
